@@ -115,7 +115,9 @@ def reachable(u, zones, cache, questions):
 class NetBuilder(rg.CaseBuilder):
     """resolvergen.CaseBuilder with local zones / cache given as data and the table extended to the alias closure"""
 
-    def __init__(self, batch, u, mode, port, questions, zones, cache, kind, forwarder_ip=None):
+    def __init__(self, batch, u, mode, port, questions, zones, cache, kind, forwarder_ip=None, face2=None):
+        """face2 = (universe2, [(name, qtype), ...]): the replies to THOSE questions are computed from universe2 (same
+        servers, other zone contents) -- an upstream that says something else from one reply to the next"""
         self.u, self.mode, self.port, self.questions, self.faults = u, mode, port, questions, "_"
         self.zones = "|".join(g.enc_zone(z) for z in zones) or "_"
         self.cache = tok.rrs([rg.rrtok(r) for r in cache])
@@ -147,6 +149,43 @@ class NetBuilder(rg.CaseBuilder):
                     queries.append("%s,%s" % (ips[0], qt))
         self.serve_idx = batch.add("resolver SERVE %s %s" % (self.utok, "+".join(queries))) if queries else None
         self.auth_idx = batch.add("resolver AUTH %s %s" % (self.utok, "|".join(tok.question(tok.name(n), t) for n, t in questions)))
+        self.entries2, self.serve2_idx = [], None
+        if face2 is not None:
+            u2, qs2 = face2
+            queries2 = []
+            for key, ips in groups.items():
+                cl = set()
+                for ip in ips:
+                    cl |= claims[ip]
+                for (n, t) in qs2:
+                    if any(rg.is_sub(n, a) for a in cl):
+                        qt = tok.question(tok.name(n), t)
+                        self.entries2.append((ips, qt))
+                        queries2.append("%s,%s" % (ips[0], qt))
+            if queries2:
+                self.serve2_idx = batch.add("resolver SERVE %s %s" % (u2.token(self.extra), "+".join(queries2)))
+
+    def line(self, outs):
+        base = rg.CaseBuilder.line(self, outs)
+        if self.serve2_idx is None:
+            return base
+        hexes = outs[self.serve2_idx].split(";")
+        assert len(hexes) == len(self.entries2)
+        first = ["%s=%s=%s" % (",".join(ips), qt, h) for (ips, qt), h in zip(self.entries2, hexes) if h not in ("-", "!")]
+        t = base.split(" ")
+        if first:                                          # the first entry for a key wins in both drivers
+            t[7] = "+".join(first + ([t[7]] if t[7] != "_" else []))
+        return " ".join(t)
+
+
+class RawCase:
+    """a case line kept verbatim"""
+
+    def __init__(self, text):
+        self.text = text
+
+    def line(self, outs):
+        return self.text
 
 
 # ---------------------------------------------------------------------------------------------
@@ -227,8 +266,10 @@ class Parts:
         self.zones = []         # further zones
         self.cache = []
         self.questions = []
+        self.face2 = None       # (universe2, questions answered from it), see NetBuilder
 
     def join(self, other):
+        self.face2 = self.face2 or other.face2
         self.kind = self.kind + "+" + other.kind
         self.overrides += other.overrides
         self.zones += other.zones
@@ -494,6 +535,40 @@ def sc_long(rng, u):
     return p
 
 
+def sc_twoface(rng, u):
+    """an upstream that contradicts itself from one reply to the next: the reply to the question name ends its chain
+    at `b` having passed through `a` (a -> b); the reply to the question about `b` says b -> a and a -> c.  Also the
+    variant in which the first statement about `a` is in the cache (left by an earlier resolution)."""
+    import copy
+    p = Parts("twoface")
+    z = u.chain[-1]
+    tag = "tf%d" % rng.randrange(1000)
+    k = rng.choice([0, 1, 1, 2])                         # links before `a`
+    pre = ["%s-p%d.%s" % (tag, i, z) for i in range(k + 1)]
+    a, b, c = ["%s-%s.%s" % (tag, x, z) for x in "abc"]
+    u2 = copy.deepcopy(u)
+    var = rng.choice(["replies", "replies", "cache"])
+    first = [(pre[i], pre[i + 1] if i + 1 <= k else a) for i in range(k + 1)] + [(a, b)]
+    if var == "replies":
+        for (n, d) in first:
+            add_rr(u, n, CNAME, cn(d))
+    else:
+        p.cache = [(n, CNAME, 300, cn(d)) for (n, d) in first]
+    add_rr(u2, b, CNAME, cn(a))
+    add_rr(u2, a, CNAME, cn(c))
+    end = rng.choice(["a", "a", "none", "more"])
+    if end == "a":
+        add_rr(u2, c, A, v4(0x01020304))
+    elif end == "more":
+        add_rr(u2, c, CNAME, cn("www." + z))
+    p.questions = [(pre[0], A)]
+    if rng.random() < 0.4:
+        p.questions.append((pre[0], rng.choice([A, TXT])))
+    p.face2 = (u2, [(b, A), (b, TXT)])
+    p.kind = "twoface-" + var
+    return p
+
+
 def warm_cache(rng, u):
     """nameserver data a previous resolution would have left: the NS set of a universe zone with (some) addresses"""
     z = u.zones[rng.choice(u.chain + [u.other])]
@@ -506,7 +581,7 @@ def warm_cache(rng, u):
 
 
 SCENARIOS = [sc_override, sc_override, sc_auth, sc_auth, sc_split, sc_private, sc_cachechain, sc_cachechain, sc_cross,
-             sc_loops, sc_long, sc_long]
+             sc_loops, sc_long, sc_long, sc_twoface]
 
 
 def plain_questions(rng, u, k):
@@ -532,7 +607,7 @@ def build(batch, u, parts, mode, fwd, rng=None, hints=True, port=53):
         keep = sorted(rng.sample(range(len(qs)), 12)) if rng is not None else range(12)
         qs = [qs[i] for i in keep]
     mk = "fwd" if fwd else "rec"
-    return NetBuilder(batch, u, mode, port, qs, zones, cache, "%s:%s" % (parts.kind, mk), forwarder_ip=fwd)
+    return NetBuilder(batch, u, mode, port, qs, zones, cache, "%s:%s" % (parts.kind, mk), forwarder_ip=fwd, face2=parts.face2)
 
 
 def random_case(rng, batch):
@@ -563,8 +638,18 @@ def corpus_universe(seed, depth=2):
     return base_universe(random.Random(seed), depth=depth, provider=False, fams=("46",), max_ns=1)
 
 
+# the witness of C10's known finding alias-followed-twice-across-replies, as the proof side found it (hand-made reply
+# table: root hint ns. = 10.0.0.1; question www.com. A; reply to `www.com. A` = [www.com. CNAME a.com.; a.com. CNAME b.com.];
+# reply to `b.com. A` = [b.com. CNAME a.com.; a.com. CNAME c.com.; c.com. A 1.2.3.4])
+TWICE_WITNESS = ("resolver R r4 53 -~N~I-:2:1:3600:n6e73.-+I6e73.-:1:1:3600:a167772161 _ 777777.636f6d.-:1:1 "
+                 "a167772161=777777.636f6d.-:1:1=0000840000010002000000000377777703636f6d0000010001c00c000500010000012c0007016103636f6d00"
+                 "c025000500010000012c0007016203636f6d00+a167772161=62.636f6d.-:1:1=000084000001000300000000016203636f6d0000010001c00c0005"
+                 "00010000012c0007016103636f6d00c023000500010000012c0007016303636f6d00c036000100010000012c000401020304 _ "
+                 "kind=corpus-alias-followed-twice-witness:rec;ff=1")
+
+
 def corpus(batch):
-    out = []
+    out = [RawCase(TWICE_WITNESS)]
     modes = [("rp4", None), ("f%s@53" % FWD4, FWD4)]
 
     def both(mk_parts, depth=2, seed=5, hints=True):
@@ -700,6 +785,27 @@ def corpus(batch):
         p.questions = [("portal." + P, A), ("kc." + CACHED, A), ("a." + S, A), ("portal." + P, ANY)]
         return p
     both(c8c)
+
+    # an upstream that contradicts itself between two replies about one alias; and the cache against a later reply
+    for var in ("replies", "cache"):
+        def c8d(u, var=var):
+            import copy
+            p = Parts("alias-followed-twice-" + var)
+            z = u.chain[-1]
+            p0, a, b, c = ["tf-%s.%s" % (x, z) for x in ("p0", "a", "b", "c")]
+            u2 = copy.deepcopy(u)
+            if var == "replies":
+                add_rr(u, p0, CNAME, cn(a))
+                add_rr(u, a, CNAME, cn(b))
+            else:
+                p.cache = [(p0, CNAME, 300, cn(a)), (a, CNAME, 300, cn(b))]
+            add_rr(u2, b, CNAME, cn(a))
+            add_rr(u2, a, CNAME, cn(c))
+            add_rr(u2, c, A, v4(0x01020304))
+            p.questions = [(p0, A)]
+            p.face2 = (u2, [(b, A)])
+            return p
+        both(c8d)
 
     # local zone -> cache -> upstream
     def c9(u):
